@@ -22,22 +22,30 @@ import os
 from vlib import core, x_c20
 
 
+def all_verbs():
+    """every method the application dispatches (do_* of the Application under test)"""
+    from radicale.app import Application
+    return sorted(n[3:] for n in dir(Application) if n.startswith("do_"))
+
+
 def gate_cases(rng, n):
-    """request gate: every combination of the gate's tests with boundary Content-Length values"""
+    """request gate: every combination of the gate's tests with boundary Content-Length values, for EVERY method"""
     cases = []
+    verbs = all_verbs()
     cls = lambda ml: [None, "", "0", "1", str(max(ml - 1, 0)), str(ml), str(ml + 1), str(ml + 2), str(10 ** 15),  # noqa: E731
                       "-1", "-%d" % (ml + 1), "abc", "1_0", " %d " % (ml + 1), "+%d" % (ml + 1), "0x1F", "1.0", "٣٣"]
     for internal in (True, False):
         for ml in (0, 1, 10, 100000000):
             for cl in cls(ml):
-                for auth in ("anon", "ok", "fail"):
-                    cases.append(dict(internal=internal, max_len=ml,
-                                      m=dict(pref="ok", method=True, wk="none", auth=auth, cl=cl)))
+                for verb in verbs:
+                    for auth in (("anon", "ok", "fail") if verb == "PUT" else ("anon",)):
+                        cases.append(dict(internal=internal, max_len=ml,
+                                          m=dict(pref="ok", method=True, wk="none", auth=auth, cl=cl, verb=verb)))
     while len(cases) < n:
         ml = rng.choice([0, 1, 7, 10, 4096, 100000000])
         m = dict(pref=rng.choice(["ok"] * 6 + ["badheader", "badscript"]), method=rng.random() < 0.85,
                  wk=rng.choice(["none"] * 6 + ["redirect", "notfound"]), auth=rng.choice(["anon", "ok", "fail"]),
-                 cl=rng.choice(cls(ml) + [str(ml + 1)] * 6))
+                 cl=rng.choice(cls(ml) + [str(ml + 1)] * 6), verb=rng.choice(verbs))
         cases.append(dict(internal=rng.random() < 0.8, max_len=ml, m=m))
     return cases
 
@@ -187,7 +195,8 @@ def run(ctx):
         for case, r in zip(gcases, gres["results"]):
             ml, m = case["max_len"], case["m"]
             a = x_c20.abstract_cl(m.get("cl"))
-            key = (case["internal"], ml, m["pref"], m["method"], m["wk"], m["auth"], a)
+            key = (case["internal"], ml, m["pref"], m["method"], m.get("verb"), m["wk"], m["auth"], a)
+            ctx.count("gate:verb_%s" % (m.get("verb") if m["method"] else "unknown"))
             ctx.case(("gate",) + key, nontrivial=ml > 0, sample=None)
             ctx.count("gate:status_%d" % r["status"])
             out = (None if r["invoked"] else r["status"], r["invoked"])
@@ -211,24 +220,69 @@ def run(ctx):
                 len(bad), [(gcases[b], gres["results"][b]) for b in bad[:3]]))
             for b in bad[:3]:
                 report(ctx, seen, "request gate differs from the model", dict(kind="gate", case=gcases[b], result=gres["results"][b]))
-    # ---------------------------------------------------------------- witness of C20_size_bound_strong_refuted
-    # (outside the literal property text: recorded, never a VIOLATION unless known_findings.json lists it as known)
-    SIG = "C20: negative Content-Length reaches the handler, which reads the body until EOF"
+    # ---------------------------------------------------------------- the REAL handlers: every method x declared length
+    ML = 50
+    declared = [None, "0", "1", "49", "50", "51", "52", "100000", "10000000000", "-1", "-51"]
+    rres = x_c20.run_jobs([dict(kind="realgate", max_len=ML, declared=declared)], ctx.scratch(), procs=1)[0]
+    if rres.get("driver_error") or "results" not in rres:
+        ctx.obligation("driver-ran:realgate", False, str(rres)[:1500])
+    else:
+        ctx.obligation("realgate:every-dispatched-method-is-exercised", not rres["verbs_without_request"],
+                       "no request for %r in real_requests() of the driver" % (rres["verbs_without_request"],))
+        for r in rres["results"]:
+            known = r["method"] in rres["verbs"]
+            if r["declared"] == "honest":
+                ctx.count("realgate:honest:%s:read=%s,changed=%s" % (r["method"], r["nread"] > 0, r["store_changed"]))
+                continue
+            a = r["cl_abs"]
+            ctx.case(("realgate", r["method"], r["declared"]), nontrivial=a[0] == "int" and (a[1] > ML or a[1] < 0))
+            ctx.count("realgate:status_%d" % r["status"])
+            rp = dict(kind="realgate", max_len=ML, declared=[r["declared"]], result=r)
+            if a[0] == "int" and a[1] > ML:
+                want = 413 if known else 405
+                if r["status"] != want or r["nread"] or r["store_changed"]:
+                    report(ctx, seen, "%s with declared length %d > max_content_length %d on the real application: status %d "
+                           "(expected %d), %d body bytes read, store changed: %s" % (
+                               r["method"], a[1], ML, r["status"], want, r["nread"], r["store_changed"]), rp,
+                           key="realgate:oversized")
+            elif a[0] == "int" and a[1] < 0:
+                want = 400 if known else 405
+                if r["status"] != want or r["nread"] or r["store_changed"]:
+                    report(ctx, seen, "%s with negative declared length on the real application: status %d, %d body bytes "
+                           "read, store changed: %s" % (r["method"], r["status"], r["nread"], r["store_changed"]), rp,
+                           key="realgate:negative")
+            if r["nread"] > ML:
+                report(ctx, seen, "%s: %d body bytes read although max_content_length is %d" % (r["method"], r["nread"], ML),
+                       rp, key="realgate:read-more-than-limit")
+            if r["status"] == 413 and not (a[0] == "int" and a[1] > ML):
+                report(ctx, seen, "413 for a request that does not exceed max_content_length", rp)
+    # ---------------------------------------------------------------- TLS: silent before / after the handshake
+    sjobs = [dict(kind="ssl", cfg=dict(max_conn=mc, timeout=T, max_len=10, listeners=1, nmax=6), seed=ctx.rng.randrange(10 ** 6))
+             for (mc, T) in ctx.n([(1, 1.0)], [(1, 1.0), (1, 2.0), (2, 1.0), (2, 1.5)])]
+    for job, res in zip(sjobs, x_c20.run_jobs(sjobs, ctx.scratch(), procs=4)):
+        if res.get("driver_error"):
+            ctx.obligation("driver-ran:ssl", False, res.get("inconclusive", ""))
+            continue
+        ctx.case(("ssl", json.dumps(job["cfg"], sort_keys=True)), nontrivial=True,
+                 sample=dict(mode="ssl", cfg=job["cfg"], steps=res.get("steps")))
+        ctx.count("ssl:scenarios")
+        if res.get("inconclusive"):
+            ctx.notes.append("inconclusive ssl scenario: %s" % res["inconclusive"][:200])
+        for f in res.get("fail", []):
+            report(ctx, seen, f.get("what"), dict(kind="ssl", cfg=job["cfg"], seed=job["seed"], failures=res.get("fail"),
+                                                  steps=res.get("steps")))
+    # ---------------------------------------------------------------- regression of the fixed negative-length finding
+    # over the socket, real do_PUT: a negative or oversized declared length must not make the handler read the body
     nres = x_c20.run_jobs([dict(kind="neglen", declared="-1", body=300000, max_len=1000),
                            dict(kind="neglen", declared="2000", body=300000, max_len=1000)], ctx.scratch(), procs=1)
     ctx.extra["negative_content_length_witness"] = nres
-    try:
-        read_neg = max(nres[0].get("bytes_read_by_handler") or [0])
-        if read_neg > 1000:
-            ctx.notes.append("observation (stronger reading of 'bounds request size', not the property text): PUT with "
-                             "Content-Length: -1 and max_content_length=1000 -> the handler read %d body bytes; the same body "
-                             "declared as 2000 bytes -> status %s, %r bytes read" % (
-                                 read_neg, nres[1].get("status"), nres[1].get("bytes_read_by_handler")))
-            if any(k.get("property") == "C20" and k.get("signature") == SIG and k.get("status") == "known"
-                   for k in ctx.known.get("findings", [])):
-                ctx.violation(SIG, dict(kind="neglen", witness=nres[0]), signature=SIG)
-    except Exception as e:   # the witness is informative only
-        ctx.notes.append("negative-length witness not evaluated: %r" % (e,))
+    for r in nres:
+        if r.get("error"):
+            ctx.notes.append("negative-length witness not evaluated: %s" % r["error"][-200:])
+        elif max(r.get("bytes_read_by_handler") or [0]) > 1000:
+            report(ctx, seen, "PUT with Content-Length: %s and max_content_length=1000 over the socket: the handler read %d "
+                   "body bytes (status %s)" % (r["declared"], max(r["bytes_read_by_handler"]), r.get("status")),
+                   dict(kind="neglen", declared=r["declared"], body=r["sent"], max_len=r["max_len"], witness=r))
     # ---------------------------------------------------------------- scripts against serve()
     jobs = make_jobs(ctx, ctx.n(72, 4000))
     run_scripts(ctx, jobs, "lockstep", procs, seen)
@@ -244,6 +298,13 @@ def run(ctx):
 
 def replay(ctx, path):
     rp = json.load(open(path))["replay"]
+    if rp.get("kind") in ("realgate", "ssl", "neglen"):
+        job = dict(rp)
+        job.pop("result", None)
+        job.pop("witness", None)
+        res = x_c20.run_jobs([job], ctx.scratch(), procs=1)[0]
+        print(json.dumps(res, indent=1)[:6000])
+        return 1 if res.get("fail") else 0
     if rp.get("kind") == "gate":
         res = x_c20.run_jobs([dict(kind="gate", cases=[rp["case"]])], ctx.scratch(), procs=1)[0]
         print(json.dumps(res, indent=1))
